@@ -13,6 +13,19 @@
 (* kind : f8 f4 i8 i4 u1 S tbl] per parameter and one dimensionality 0..2 per call, *)
 (* filtered by what each parameter admits ("tbl" = structured table whose multi-    *)
 (* byte fields all have the given order).                                           *)
+(* Value lattice: every parameter also carries a VALUE CLASS (what its elements     *)
+(* are, not how they are stored):                                                   *)
+(*   ord   well-behaved values of its role          nan   some elements are NaN     *)
+(*   inf   some elements are +inf / -inf            zero  some elements are 0       *)
+(*   neg   some elements are negative               equal all elements are equal    *)
+(*   dup   some elements are repeated               ext   extreme magnitudes of the *)
+(*   empty no elements (1-d, where accepted)              element type / huge offset*)
+(* The special elements sit at the SAME positions in every parameter of a call, so   *)
+(* that a pair such as (data: nan, weights: zero) is "NaN in the data exactly where *)
+(* the weight is zero".  vals = the classes the callee accepts for that role.       *)
+(* A callee whose work depends on the data (clipping, masking, wrapping longitudes, *)
+(* replacing sentinels, sorting, normalising weights) takes a different branch for  *)
+(* a different class; the frame condition holds for every one of them.              *)
 EXTENDS VU
 
 FrOrders  == {"native", "swapped"}
@@ -24,8 +37,23 @@ FLT == {"f8", "f4"}
 ANY == NUM \cup {"S"}
 TBL == {"tbl"}
 
-FrP(p, role, kinds, base) == [p |-> p, role |-> role, kinds |-> kinds, base |-> base, mut |-> FALSE]
-FrMut(p, role, kinds, base) == [p |-> p, role |-> role, kinds |-> kinds, base |-> base, mut |-> TRUE]
+\* ---- value classes -----------------------------------------------------------------
+FrVals == {"ord", "nan", "inf", "zero", "neg", "equal", "dup", "ext", "empty"}
+\* what a role admits: search radii / scale factors must be valid angles (a NaN, infinite or
+\* astronomically large search radius is not an input of a pair search: it asks for the whole
+\* mesh); ids derived by the harness and documented output targets are not varied; the small
+\* matrices have a fixed shape
+FrRoleVals(role) ==
+    CASE role \in {"radius", "dz"} -> {"ord", "zero", "equal", "dup", "empty"}
+      [] role = "scale" -> {"ord", "equal", "dup", "empty"}
+      \* a difference of two right ascensions is wrapped 360 degrees at a time: 1e300 is not such a difference
+      [] role = "dlon" -> FrVals \ {"ext"}
+      [] role \in {"htmid2", "table_target"} -> {"ord"}
+      [] role \in {"cov", "cor", "diagerr"} -> FrVals \ {"empty"}
+      [] OTHER -> FrVals
+
+FrP(p, role, kinds, base) == [p |-> p, role |-> role, kinds |-> kinds, base |-> base, mut |-> FALSE, vals |-> FrRoleVals(role)]
+FrMut(p, role, kinds, base) == [p |-> p, role |-> role, kinds |-> kinds, base |-> base, mut |-> TRUE, vals |-> FrRoleVals(role)]
 FrC(name, fam, path, params, ndims, opts, text) ==
     [name |-> name, fam |-> fam, path |-> path, params |-> params, ndims |-> ndims, opts |-> opts, text |-> text]
 
@@ -38,6 +66,7 @@ Wt(p)       == FrP(p, "weight", NUM, "f8")
 
 \* paths (how the code gets from the caller's array to the thing it works on; see the
 \* mechanism model at the end): "copy" - explicit copy at entry or new-array construction;
+\* "wrap" - values outside a range are replaced by assignment (data dependent);
 \* "alias_read" - asarray/atleast_1d/astype(copy=False) then read-only use (C const
 \* accessors); "view_native" - data.view(ndarray), converted to native order for text output
 FrRecfile == {
@@ -51,7 +80,8 @@ FrRecfile == {
       {"binary", "csv", "tab", "space", "csv_bracket", "csv_padnull", "csv_ignorenull", "csv_twice", "binary_twice"},
       {"csv", "tab", "space", "csv_bracket", "csv_padnull", "csv_ignorenull", "csv_twice"}),
   FrC("io.write",      "recfile", "view_native", <<Tbl("data")>>, {0, 1, 2},
-      {"rec_binary", "rec_csv", "rec_tab", "rec_binary_append", "rec_csv_append"}, {"rec_csv", "rec_tab", "rec_csv_append"}) }
+      {"rec_binary", "rec_csv", "rec_tab", "rec_binary_append", "rec_csv_append"}, {"rec_csv", "rec_tab", "rec_csv_append"}),
+  FrC("io.write_rec",  "recfile", "view_native", <<Tbl("data")>>, {0, 1, 2}, {"binary", "csv", "tab"}, {"csv", "tab"}) }
 
 FrFields == {
   FrC("numpy_util.extract_fields",  "fields", "copy", <<Tbl("arr")>>, {0, 1, 2}, {"one", "two", "sub_array_field", "nonstrict"}, {}),
@@ -61,6 +91,11 @@ FrFields == {
   FrC("numpy_util.combine_fields",  "fields", "copy", <<Tbl("arr1"), FrP("arr2", "table2", TBL, "tbl")>>, {0, 1, 2}, {"two", "single"}, {}),
   FrC("numpy_util.copy_fields",     "fields", "copy", <<Tbl("arr1"), FrMut("arr2", "table_target", TBL, "tbl")>>, {0, 1, 2}, {"default"}, {}),
   FrC("numpy_util.split_fields",    "fields", "alias_read", <<Tbl("data")>>, {0, 1, 2}, {"all", "some", "getnames"}, {}),
+  \* the same function exists three times (numpy_util, sfile, recfile.Util)
+  FrC("sfile.split_fields",         "fields", "alias_read", <<Tbl("data")>>, {0, 1, 2}, {"all", "some", "getnames"}, {}),
+  FrC("recfile.split_fields",       "fields", "alias_read", <<Tbl("data")>>, {0, 1, 2}, {"all", "some", "getnames"}, {}),
+  \* documented as writing into arr; the value arrays it copies from are protected
+  FrC("numpy_util.copy_fields_by_name", "fields", "copy", <<FrMut("arr", "table_target", TBL, "tbl"), Dat("vals")>>, {0, 1, 2}, {"one", "two"}, {}),
   FrC("numpy_util.combine_arrlist", "fields", "copy", <<Tbl("arr1"), FrP("arr2", "table", TBL, "tbl")>>, {1}, {"keep", "nokeep"}, {}) }
 
 FrByteOrder == {
@@ -71,7 +106,8 @@ FrMatch == {
   FrC("numpy_util.match",       "match", "alias_read", <<FrP("arr1", "ids", ANY, "i8"), FrP("arr2", "ids2", ANY, "i8")>>, {0, 1}, {"unsorted", "presorted"}, {}),
   FrC("numpy_util.match_multi", "match", "alias_read", <<FrP("arr1", "ids", ANY, "i8"), FrP("arr2", "ids2", ANY, "i8")>>, {1}, {"default"}, {}),
   FrC("numpy_util.unique",      "match", "alias_read", <<FrP("arr", "dups", ANY, "i8")>>, {1}, {"indices", "values"}, {}),
-  FrC("numpy_util.rem_dup",     "match", "alias_read", <<FrP("arr", "dups", ANY, "i8"), FrP("flag", "flag", NUM, "i8")>>, {1}, {"indices", "values"}, {}) }
+  FrC("numpy_util.rem_dup",     "match", "alias_read", <<FrP("arr", "dups", ANY, "i8"), FrP("flag", "flag", NUM, "i8")>>, {1}, {"indices", "values"}, {}),
+  FrC("numpy_util.strmatch",    "match", "alias_read", <<FrP("arr", "ids", {"S"}, "S")>>, {0, 1, 2}, {"prefix", "all"}, {}) }
 
 FrHist == {
   FrC("stat.histogram", "hist", "copy", <<Dat("data")>>, {0, 1, 2},
@@ -90,8 +126,10 @@ FrStats == {
   FrC("stat.wmedian",    "stats", "alias_read", <<Dat("arr"), Wt("weights")>>, {0, 1}, {"default"}, {}),
   FrC("stat.sigma_clip", "stats", "copy", <<Dat("arr")>>, {1, 2}, {"default", "get_err", "get_indices", "tight"}, {}),
   FrC("stat.sigma_clip+weights", "stats", "copy", <<Dat("arr"), Wt("weights")>>, {1, 2}, {"default", "get_err", "tight"}, {}),
-  FrC("stat.get_stats",  "stats", "copy", <<Dat("arr")>>, {0, 1, 2}, {"default", "nsig"}, {}),
-  FrC("stat.get_stats+weights", "stats", "copy", <<Dat("arr"), Wt("weights")>>, {1, 2}, {"default", "nsig"}, {}),
+  FrC("stat.get_stats",  "stats", "copy", <<Dat("arr")>>, {0, 1, 2}, {"default", "nsig", "doprint"}, {}),
+  FrC("stat.get_stats+weights", "stats", "copy", <<Dat("arr"), Wt("weights")>>, {1, 2}, {"default", "nsig", "doprint"}, {}),
+  FrC("stat.print_stats", "stats", "copy", <<Dat("arr")>>, {0, 1, 2}, {"default", "nsig"}, {}),
+  FrC("stat.print_stats+weights", "stats", "copy", <<Dat("arr"), Wt("weights")>>, {1, 2}, {"default", "nsig"}, {}),
   FrC("stat.interplin",  "stats", "alias_read", <<Dat("v"), FrP("x", "ascending", NUM, "f8"), FrP("u", "query", NUM, "f8")>>, {0, 1}, {"default"}, {}),
   FrC("stat.cov2cor",    "stats", "alias_read", <<FrP("cov", "cov", FLT \cup {"i8", "i4"}, "f8")>>, {2}, {"default"}, {}),
   FrC("stat.cor2cov",    "stats", "alias_read", <<FrP("cor", "cor", FLT, "f8"), FrP("diagerr", "diagerr", NUM, "f8")>>, {2}, {"default"}, {}),
@@ -110,14 +148,24 @@ FrCoords ==
   FrC("coords.shiftlon", "coords", "copy", <<Lon("lon")>>, {0, 1, 2}, {"wrap", "nowrap", "shift_pos", "shift_neg"}, {}),
   FrC("coords.shiftra",  "coords", "copy", <<Lon("ra")>>, {0, 1, 2}, {"wrap", "shift_pos", "shift_neg"}, {}),
   FrC("coords.radec2aitoff", "coords", "copy", <<Lon("ra"), Lat("dec")>>, {0, 1, 2}, {"default"}, {}),
-  FrC("coords.rotate",  "coords", "alias_read", <<Lon("ra"), Lat("dec")>>, {0, 1, 2}, {"default"}, {}) }
+  FrC("coords.rotate",  "coords", "alias_read", <<Lon("ra"), Lat("dec")>>, {0, 1, 2}, {"default"}, {}),
+  FrC("coords.rect_area", "coords", "alias_read", <<FrP("lon_min", "clambda", NUM, "f8"), Lon("lon_max"), FrP("lat_min", "ceta", NUM, "f8"), Lat("lat_max")>>,
+      {0, 1, 2}, {"default"}, {}) }
 
 FrWcs == {
   FrC("WCS.image2sky", "wcs", "copy", <<FrP("x", "pixx", NUM, "f8"), FrP("y", "pixy", NUM, "f8")>>, {0, 1, 2},
       {"tan", "tpv", "tpv_nodistort", "sip", "sip_nodistort"}, {}),
   FrC("WCS.sky2image", "wcs", "copy", <<FrP("longitude", "skylon", FLT, "f8"), FrP("latitude", "skylat", FLT, "f8")>>, {0, 1, 2},
       {"tan", "tpv_find", "tpv_nofind", "tpv_nodistort", "sip_find", "sip_nofind", "sip_nodistort"}, {}),
-  FrC("WCS.get_jacobian", "wcs", "copy", <<FrP("x", "pixx", NUM, "f8"), FrP("y", "pixy", NUM, "f8")>>, {0, 1}, {"tan", "tpv", "tpv_nodistort"}, {}) }
+  FrC("WCS.get_jacobian", "wcs", "copy", <<FrP("x", "pixx", NUM, "f8"), FrP("y", "pixy", NUM, "f8")>>, {0, 1}, {"tan", "tpv", "tpv_nodistort"}, {}),
+  \* the public steps image2sky / sky2image are made of, and the module-level RA-difference wrap
+  FrC("WCS.image2sph", "wcs", "copy", <<FrP("x", "clambda", NUM, "f8"), FrP("y", "ceta", NUM, "f8")>>, {0, 1, 2}, {"tan", "sip"}, {}),
+  FrC("WCS.sph2image", "wcs", "copy", <<FrP("longitude", "skylon", NUM, "f8"), FrP("latitude", "skylat", NUM, "f8")>>, {0, 1, 2}, {"tan", "sip"}, {}),
+  FrC("WCS.Rotate", "wcs", "copy", <<Lon("lon"), Lat("lat")>>, {0, 1, 2}, {"forward", "reverse"}, {}),
+  FrC("WCS.ApplyCDMatrix", "wcs", "copy", <<FrP("x", "pixx", NUM, "f8"), FrP("y", "pixy", NUM, "f8")>>, {0, 1, 2}, {"forward", "inverse"}, {}),
+  FrC("WCS.Distort", "wcs", "copy", <<FrP("x", "pixx", NUM, "f8"), FrP("y", "pixy", NUM, "f8")>>, {0, 1, 2},
+      {"tan", "tpv", "sip", "tpv_inverse", "sip_inverse"}, {}),
+  FrC("wcsutil.wrap_ra_diff", "wcs", "wrap", <<FrP("dra", "dlon", NUM, "f8")>>, {0, 1, 2}, {"default"}, {}) }
 
 FrCosmoTwo == {"Cosmo.Dc", "Cosmo.Dm", "Cosmo.Da", "Cosmo.Dl", "Cosmo.V", "Cosmo.Ezinv_integral", "Cosmo.sigmacritinv"}
 FrCosmoOne == {"Cosmo.dV", "Cosmo.distmod", "Cosmo.Ez_inverse"}
@@ -165,7 +213,57 @@ FrTwoOff(c, nd) == UNION {{[i \in DOMAIN c.params |-> IF i = qr[1] THEN FrAdapt(
                                                       ELSE FrBase(c.params[i])]
                            : a \in FrOG(nd), b \in FrOG(nd)}
                           : qr \in {x \in (DOMAIN c.params) \X (DOMAIN c.params) : x[1] < x[2]}}
-FrAssignments(c, nd, Pairwise) == FrOneOff(c, nd) \cup FrUniform(c, nd) \cup (IF Pairwise THEN FrTwoOff(c, nd) ELSE {})
+FrLayAssignments(c, nd, Pairwise) == FrOneOff(c, nd) \cup FrUniform(c, nd) \cup (IF Pairwise THEN FrTwoOff(c, nd) ELSE {})
+
+\* ---- value classes of the arguments --------------------------------------------------
+\* NaN / inf need a floating element type (or a table: its float fields), negative values a signed one;
+\* "all equal", "duplicates" need more than one element; an empty argument is 1-d
+FrValKindOK(v, k) == (v \in {"nan", "inf"} => k \in FLT \cup TBL) /\ (v = "neg" => k \notin {"u1", "S"})
+FrValNdOK(v, nd)  == (v = "empty" => nd = 1) /\ (v \in {"equal", "dup"} => nd # 0)
+\* the element kind a class is shown in: the base kind of the parameter, or f8 where the base kind cannot hold it
+FrValKind(p, v) == IF FrValKindOK(v, p.base) THEN p.base ELSE "f8"
+FrValAdm(p, nd) == {v \in p.vals \ {"ord"} : FrValNdOK(v, nd) /\ FrValKind(p, v) \in p.kinds /\ FrValKindOK(v, FrValKind(p, v))}
+FrValOK(p, l, v, nd) == v = "ord" \/ (v \in p.vals /\ FrValNdOK(v, nd) /\ FrValKindOK(v, l.kind))
+FrValLay(p, v, o, g) == LET k == IF v = "ord" THEN p.base ELSE FrValKind(p, v)
+                        IN [order |-> IF FrHasOrder(k) THEN o ELSE "native", contig |-> g, kind |-> k]
+FrAllOrd(c) == [i \in DOMAIN c.params |-> "ord"]
+
+\* an assignment = [lay : layout per parameter, val : value class per parameter].  Covering design:
+\*   - every layout assignment above with ordinary values;
+\*   - ValOneOff : every admissible class of one parameter, the others ordinary, in the order/contiguity
+\*                 shapes OG (quick: the base layout - where a callee is most likely to work on the caller's
+\*                 own buffer; thorough: every order x contiguity, and every element kind that can hold it);
+\*   - ValUniform: the same class in every parameter that admits it;
+\*   - ValCross  : for two parameters, the pairs of XP (quick: NaN/inf against zero/negative - "NaN in the
+\*                 data exactly where the weight is zero" - and NaN against inf; thorough: all pairs).
+FrValOneOff(c, nd, OG) ==
+    UNION {UNION {{[lay |-> [i \in DOMAIN c.params |-> IF i = q THEN FrValLay(c.params[i], v, og[1], og[2]) ELSE FrBase(c.params[i])],
+                    val |-> [i \in DOMAIN c.params |-> IF i = q THEN v ELSE "ord"]]
+                   : og \in OG} : v \in FrValAdm(c.params[q], nd)} : q \in DOMAIN c.params}
+FrValKinds(c, nd) ==
+    UNION {UNION {{[lay |-> [i \in DOMAIN c.params |-> IF i = q THEN [order |-> "native", contig |-> "c", kind |-> k] ELSE FrBase(c.params[i])],
+                    val |-> [i \in DOMAIN c.params |-> IF i = q THEN v ELSE "ord"]]
+                   : k \in {kk \in c.params[q].kinds : FrValKindOK(v, kk)}} : v \in FrValAdm(c.params[q], nd)} : q \in DOMAIN c.params}
+FrValSame(c, nd, v) == [i \in DOMAIN c.params |-> IF v \in FrValAdm(c.params[i], nd) THEN v ELSE "ord"]
+FrValUniform(c, nd) ==
+    {[lay |-> [i \in DOMAIN c.params |-> FrValLay(c.params[i], FrValSame(c, nd, v)[i], "native", "c")], val |-> FrValSame(c, nd, v)]
+     : v \in {w \in FrVals \ {"ord"} : FrValSame(c, nd, w) # FrAllOrd(c)}}
+FrCrossQuick == LET A == {"nan", "inf"}  B == {"zero", "neg"} IN (A \X B) \cup (B \X A) \cup {<<"nan", "inf">>, <<"inf", "nan">>}
+FrCrossAll   == (FrVals \ {"ord"}) \X (FrVals \ {"ord"})
+FrValCross(c, nd, XP) ==
+    UNION {{[lay |-> [i \in DOMAIN c.params |-> IF i = qr[1] THEN FrValLay(c.params[i], x[1], "native", "c")
+                                                ELSE IF i = qr[2] THEN FrValLay(c.params[i], x[2], "native", "c") ELSE FrBase(c.params[i])],
+             val |-> [i \in DOMAIN c.params |-> IF i = qr[1] THEN x[1] ELSE IF i = qr[2] THEN x[2] ELSE "ord"]]
+            : x \in {y \in XP : y[1] \in FrValAdm(c.params[qr[1]], nd) /\ y[2] \in FrValAdm(c.params[qr[2]], nd)}}
+           : qr \in {x \in (DOMAIN c.params) \X (DOMAIN c.params) : x[1] < x[2]}}
+FrValAssignments(c, nd, Pairwise) ==
+    IF Pairwise THEN FrValOneOff(c, nd, FrOG(nd)) \cup FrValKinds(c, nd) \cup FrValUniform(c, nd) \cup FrValCross(c, nd, FrCrossAll)
+    ELSE FrValOneOff(c, nd, {<<"native", "c">>}) \cup FrValUniform(c, nd) \cup FrValCross(c, nd, FrCrossQuick)
+\* the value classes are explored in the dimensionalities ValNDims (all of the call's where it has none of them)
+FrValNd(c, ValNDims) == IF c.ndims \cap ValNDims # {} THEN c.ndims \cap ValNDims ELSE c.ndims
+FrAssignments(c, nd, Pairwise, ValNDims) ==
+    {[lay |-> l, val |-> FrAllOrd(c)] : l \in FrLayAssignments(c, nd, Pairwise)} \cup
+    (IF nd \in FrValNd(c, ValNDims) THEN FrValAssignments(c, nd, Pairwise) ELSE {})
 
 \* ---- the frame condition on one observed invocation -----------------------------------
 \* snap = Seq over parameters of [data, base, dtype, flags]: opaque tokens taken from the real
@@ -183,13 +281,21 @@ FrFrameFailing(c, pre, post) ==
 \*   FixedTextWrite = FALSE : the pinned Recfile.write - view of the caller's data, converted to
 \*                            native order IN PLACE before text output;
 \*   FixedTextWrite = TRUE  : converted through astype(native, copy=False) (copy iff needed).
+\*   path "wrap" (wcsutil.wrap_ra_diff): the differences outside [-180, 180] are wrapped by assignment
+\*   FixedWrap = FALSE : ... into the array that was passed (the code as pinned);
+\*   FixedWrap = TRUE  : ... into a copy made at entry.
+\*   Whether there is anything to wrap depends on the VALUES: the differences of the harness (role "dlon",
+\*   -360..360) contain one outside [-180, 180] in every class except "all equal" (10.5) and "empty".
 FrNeedsNative(c, opt, l) == c.path = "view_native" /\ opt \in c.text /\ l.order = "swapped"
-FrAcquire(c, opt, l, FixedTextWrite) ==                \* "alias" or "copy": what the callee works on
+FrNeedsWrap(c, v) == c.path = "wrap" /\ v \notin {"equal", "empty"}
+FrAcquire(c, opt, l, FixedTextWrite, FixedWrap) ==     \* "alias" or "copy": what the callee works on
     IF c.path = "copy" THEN "copy"
+    ELSE IF c.path = "wrap" THEN (IF FixedWrap THEN "copy" ELSE "alias")
     ELSE IF c.path = "alias_read" THEN (IF l = [order |-> "native", contig |-> "c", kind |-> l.kind] THEN "alias" ELSE "copy")
     ELSE IF FixedTextWrite /\ FrNeedsNative(c, opt, l) THEN "copy" ELSE "alias"
-FrWritesWork(c, opt, l) ==                             \* does the callee write into what it works on?
+FrWritesWork(c, opt, l, v) ==                          \* does the callee write into what it works on?
     IF c.path = "copy" THEN TRUE                       \* in-place unit conversion etc. on its own copy
+    ELSE IF c.path = "wrap" THEN FrNeedsWrap(c, v)     \* data dependent
     ELSE IF c.path = "alias_read" THEN FALSE
     ELSE FrNeedsNative(c, opt, l)                      \* byteswap(True) + dtype flip
 =============================================================================
